@@ -243,7 +243,9 @@ QuitReturnsNormally == [][(IsFrame /\ ret' = "returned") =>
                             /\ (Len(Evs(log', "on_switch_out")) = 0 => cur' = cur /\ curInst' = curInst)]_vars
 \* on_quit goes to the current world, or to the world given to quit_loop (request "quitto") - never anywhere else
 OnQuitDeliveredInCurrent ==
-    [][\A inc \in Incs, site \in Sites, req \in ReqSet : (Frame(inc, site, req) /\ ret' = "returned") =>
+    \* (a "switchq" frame enters another world before it returns: what that world had been holding - possibly an on_quit
+    \* addressed to it by an earlier quit_loop(target) - is released there; the request itself dispatches no on_quit)
+    [][\A inc \in Incs, site \in Sites, req \in ReqSet : (Frame(inc, site, req) /\ ret' = "returned" /\ req[1] # "switchq") =>
           \A i \in 1..Len(Evs(log', "on_quit")) :
               Evs(log', "on_quit")[i][2] = (IF req[1] = "quitto" THEN inst[req[2]] ELSE curInst)]_vars
 StartAlwaysFresh == (~running) => last = NoTS
